@@ -29,6 +29,7 @@ probes! {
     P_PANIC_IN_CB6 = "panic_injected@fmt";
     P_PANIC_IN_CB7 = "panic_injected@closure";
     P_PANIC_IN_CB8 = "panic_injected@drop";
+    P_PANIC_IN_CB9 = "panic_injected@default";
     P_UNIQ_GRANTED = "uniqueness_granted";
     P_UNIQ_DECLINED = "uniqueness_declined";
     P_UNIQ_GRANTED_PAR = "uniqueness_granted_in_parallel_section";
